@@ -24,8 +24,12 @@ RULE = ('(a) link store: _set_ast / _set_field / _unmake_fst_tree / _make_fst_tr
         'objects by identity, new ones up to renaming) compared with the Lean model; (b) the set of nodes whose '
         '_cache the _offset walk clears (sentinel entries) compared exactly with the Lean touched set, on real trees '
         'with boundary offset points, all tail/head, exclude/self_ variants; (c) FSTView window arithmetic: '
-        '(_start, _stop) after every editing method vs the Lean model; (d) random edit histories (replace / remove / '
-        'insert / append / prepend / put_slice / put_src offset / put_src(action=None) on trailing comments / edits through windowed views; norm=True) on corpus '
+        '(_start, _stop) after every editing method vs the Lean model; (e) put_line_comment / put_src(action=None) on real '
+        'statements with sentinel cache entries: every cache the model of the call site (_touchall(parents[,self])) '
+        'clears must be cleared (superset allowed); (d) random edit histories (replace / remove / '
+        'insert / append / prepend / put_slice / put_src offset / put_src(action=None) on comment- and whitespace-only line tails / '
+        'put_line_comment (add, replace shorter/longer/multi-byte, delete, full=True; statements ending 0..n enclosing blocks) / '
+        'put_docstr (add, replace, delete, multi-line) / par / unpar (meaning-preserving calls only) / edits through windowed views; norm=True) on corpus '
         'programs with random read-only queries before every edit: after every edit the link graph is judged by '
         'the Lean invariant and every query on every node is compared (caches as left by the edit, caches cleared, '
         'fresh FST(root.src)); distinct = distinct (program, history prefix); non-trivial = the edit changed the source')
@@ -72,9 +76,30 @@ TECHNIQUE = 'Lean 4 proof (structural induction over nested trees, functional st
 FINDINGS_FILE = Path(__file__).with_name('C02_findings.json')
 
 
-def _programs(ctx, n, stdlib=0):
+# programs for the dedicated accessor edits: nested blocks whose last lines carry comments, docstrings, tight
+# parentheses between keywords (`unpar` then writes spaces into the line instead of deleting)
+EXTRA_PROGRAMS = [
+    'def f(a):\n    if a:\n        b = 1  # x\n    return b\n\n\nclass K:\n    def m(self):\n        for i in self.items:\n'
+    '            total += i  # add\n        else:\n            total = 0  # none\n        return total\n',
+    'class C:\n    """doc"""\n    def m(self):\n        """m doc\n\n        more\n        """\n        while a:\n            if b:\n'
+    '                c = 1  # é deep\n',
+    'try:\n    a  # t\nexcept E:\n    b  # e\nelse:\n    c  # l\nfinally:\n    with x:\n        d  # f\n',
+    'if a:\n    pass  # one\nelif b:\n    pass  # two\nelse:\n    for i in j:\n        pass  # three\n# trailing own line\n',
+    'def g():\n    # lead\n    x = 1;  y = 2  # semi\n    match x:\n        case 1:\n            z  # in case\n',
+    'x if(a)else y\nz = not(b)and c\nw = p if(q)and r else s\n',
+    'def h():\n    return(a)if(b)else(c)\n',
+    'v = [i for i in(a)if(i)]\nu = (yield)\nt = lambda:(x)\nassert(s), (m)\n',
+    'async def k():\n    r = await(x)\n    for i in(a):\n        del(i)\n    return not(r)or(i)\n',
+    'f((a), (b))\ng((a))\nclass B((object)): pass\nq = ((a, b))\np = (((c)))\n',
+]
+
+
+def _programs(ctx, n, stdlib=0, extra=0):
     rng = random.Random(ctx.rng.random())
-    return corpus.programs(rng, n, stdlib=stdlib)
+    out = corpus.programs(rng, n, stdlib=stdlib)
+    for _ in range(extra):
+        out.extend(EXTRA_PROGRAMS)
+    return out
 
 
 def _mk(src):
@@ -547,12 +572,95 @@ def corr_views(ctx, n):
         ctx.brk('correspondence', name, f'{bad}/{len(cases)} cases differ; first: ' + json.dumps(first, default=str)[:1500])
 
 
+# ---------------------------------------------------------------------------------------------------------------------
+# (e) call-site expectation: the trivia accessors must clear at least what their `_touchall(...)` clears in the model
+
+def _accessor_cases(arg):
+    src, seed, n = arg
+    rng = random.Random(seed)
+    out = []
+    for _ in range(n):
+        try:
+            root = _mk(src)
+        except Exception:
+            return out
+        nodes = L.enum_nodes(root.a)
+        stmts = [a for p, a in nodes if p and isinstance(a, ast.stmt)]
+        if not stmts:
+            return out
+        a = rng.choice(stmts)
+        f = a.f
+        which = rng.choice(['line_comment', 'line_comment', 'put_src_none'])
+        for _, x in nodes:
+            x.f._cache.clear()
+            x.f._cache['sentinel'] = 1
+        ids = L.Ids()
+        before = L.dump_state(ids, root)
+        src0 = root.src
+        try:
+            if which == 'line_comment':
+                f.put_line_comment(rng.choice([None, '', 'y', 'a much longer comment than before', 'é ü']))
+                flags = {'parents': True, 'self': False, 'children': False}     # fst_trivia._getput_line_comment
+            else:
+                ln = a.end_lineno - 1
+                line = root._lines[ln]
+                col = line.b2c(a.end_col_offset)
+                tail = line[col:]
+                if tail.strip() and not tail.lstrip().startswith('#'):
+                    continue
+                f.put_src(rng.choice(['', '  # c', '   ', ' # é longer']), ln, col, ln, len(line), None)
+                flags = {'parents': True, 'self': True, 'children': False}      # FST.put_src(action=None)
+        except Exception:
+            continue
+        if f.a is not a or root.src == src0:
+            continue        # nothing written: nothing has to be cleared
+        cleared = [i for i, fo in enumerate(ids.fobjs[:before['store']['next']]) if 'sentinel' not in getattr(fo, '_cache', {})]
+        case = {'f': 'C02.op', 'state': {'tree': before['tree'], 'rootf': before['rootf'], 'store': before['store']},
+                'op': {'name': 'touchall', 'fst': ids.fid(f), **flags}}
+        out.append((case, cleared, which, a.__class__.__name__))
+    return out
+
+
+def corr_accessors(ctx, progs, per):
+    name = 'trivia accessors clear at least the model _touchall set'
+    res = pmap(_accessor_cases, [(p, ctx.rng.randrange(1 << 30), per) for p in progs])
+    items = [it for lst in res for it in lst]
+    cases = [it[0] for it in items]
+    try:
+        outs = ctx.lean(cases)
+    except Exception as e:
+        ctx.brk('correspondence', name, f'driver error: {e}')
+        return
+    bad = 0
+    first = None
+    for (case, cleared, which, kind), mo in zip(items, outs):
+        ctx.corr_cases += 1
+        ctx.tally('accessor', which)
+        m = mo.get('out', mo)
+        if not isinstance(m, dict) or 'store' not in m:
+            bad += 1
+            first = first or {'model_err': m}
+            continue
+        must = [r[0] for r in m['store']['fst'] if not r[4]]      # caches the model cleared
+        ctx.count(json.dumps(case['op']) + str(hash(json.dumps(case['state']['tree']))), bool(must))
+        missing = sorted(set(must) - set(cleared))
+        if missing:
+            bad += 1
+            first = first or {'accessor': which, 'on': kind, 'model_clears': must, 'impl_cleared': cleared, 'missing': missing}
+            ctx.hints.append((name, case))
+    ctx.dist.setdefault('correspondence_cases', {})[name] = len(cases)
+    if bad:
+        ctx.brk('correspondence', name, f'{bad}/{len(cases)} cases: the implementation left caches uncleared that the '
+                                        f'model of the call site clears; first: ' + json.dumps(first, default=str)[:1200])
+
+
 def correspondence(ctx):
     q = ctx.quick
     progs = _programs(ctx, 80 if q else 1200, 0 if q else 60)
     corr_links(ctx, progs, 4 if q else 8)
     corr_touched(ctx, progs, 5 if q else 12)
     corr_views(ctx, 30 if q else 400)
+    corr_accessors(ctx, progs + EXTRA_PROGRAMS * 3, 4 if q else 8)
 
 
 # ---------------------------------------------------------------------------------------------------------------------
@@ -610,12 +718,12 @@ def _histories(ctx, progs, nsteps, judge=True):
 
 def sweep(ctx):
     q = ctx.quick
-    progs = _programs(ctx, 170 if q else 2000, 6 if q else 100)
+    progs = _programs(ctx, 170 if q else 2000, 6 if q else 100, extra=4 if q else 30)
     _histories(ctx, progs, 5 if q else 10)
 
 
 def search(ctx):
-    progs = _programs(ctx, 500, 20)
+    progs = _programs(ctx, 500, 20, extra=10)
     _histories(ctx, progs, 6, judge=False)
 
 
